@@ -197,9 +197,30 @@ pub fn run_c11(opts: &Opts, out: &mut Emitter) {
     }
     run_nesting_boundary(out, opts.thorough);
     // version gate
-    for v in ["v1beta0", "v1alpha8", "v1alpha9", "v2", "", "V1BETA0"] {
+    // the names the toolchain knows or knew, near misses, and names a client may send: every length up to 80, a
+    // character of 2 or 4 bytes at every position of a 64-character name (an error that echoes part of the name
+    // must cut it at a character boundary)
+    let mut names: Vec<String> = ["v1beta0", "v1alpha8", "v1alpha9", "v2", "", "V1BETA0", "v1beta0 ", " v1beta0", "v1beta00", "v1beta", "v1beta1"]
+        .iter()
+        .map(|s| s.to_string())
+        .collect();
+    for n in 1..=80 {
+        names.push("v".repeat(n));
+        names.push("é".repeat(n));
+    }
+    for wide in ['é', '😀'] {
+        for at in 0..64 {
+            let mut t: Vec<char> = "v1beta0-this-is-not-a-version-anyone-has-ever-heard-of-before-xx".chars().collect();
+            t[at] = wide;
+            names.push(t.into_iter().collect());
+        }
+    }
+    for v in names.iter().map(|s| s.as_str()) {
         out.case("version", || {
-            let parsed = TirVersion::try_from(v);
+            let parsed = match guarded(|| TirVersion::try_from(v)) {
+                Ok(p) => p,
+                Err(site) => return json!({"probe": "version", "version": v, "obs": format!("panic:{site}")}),
+            };
             let res = match parsed {
                 Ok(ver) => {
                     let tx = empty_tx();
@@ -500,14 +521,32 @@ fn tx3c_bin() -> Option<String> {
 
 /// Runs `tx3c build <src> --emit tii` in a fresh process; returns the file's text.
 pub fn emit_tii(src: &str, tag: &str) -> Result<String, String> {
+    emit_tii_with(src, tag, &[], &[])
+}
+
+/// The same with `--profile <name>` flags and `--profile-env-file <name>:<file>` flags (the files are written
+/// from the given texts).
+pub fn emit_tii_with(src: &str, tag: &str, profiles: &[String], env_files: &[(String, String)]) -> Result<String, String> {
     let bin = tx3c_bin().ok_or("no tx3c binary")?;
     let dir = std::env::temp_dir().join(format!("tx3verif-{}-{}", std::process::id(), tag));
     std::fs::create_dir_all(&dir).map_err(|e| e.to_string())?;
     let src_path = dir.join("main.tx3");
     let out_path = dir.join("main.tii");
     std::fs::write(&src_path, src).map_err(|e| e.to_string())?;
+    let mut extra: Vec<String> = vec![];
+    for p in profiles {
+        extra.push("--profile".into());
+        extra.push(p.clone());
+    }
+    for (k, (p, text)) in env_files.iter().enumerate() {
+        let f = dir.join(format!("env-{k}.env"));
+        std::fs::write(&f, text).map_err(|e| e.to_string())?;
+        extra.push("--profile-env-file".into());
+        extra.push(format!("{p}:{}", f.to_str().unwrap()));
+    }
     let st = std::process::Command::new(bin)
         .args(["build", src_path.to_str().unwrap(), "--emit", "tii", "--output", out_path.to_str().unwrap()])
+        .args(&extra)
         .stdout(std::process::Stdio::null())
         .stderr(std::process::Stdio::piped())
         .output()
@@ -566,12 +605,38 @@ pub fn run_c18(opts: &Opts, out: &mut Emitter) {
                     }
                 }
             }
+            // the same with profiles on the command line: 1-3 forced profiles and 1-2 env files, their names from a
+            // small pool in which some differ only by case; every command line in six fresh processes
+            let mut tii_prof_distinct = 0usize;
+            let mut tii_prof_runs = 0usize;
+            if tx3c_bin().is_some() && (k % 4 == 0 || opts.thorough) {
+                let mut pr = Rng::new(opts.seed ^ 0x7117 ^ (k as u64) << 8);
+                let pool = ["preview", "Preview", "PREVIEW", "mainnet", "Mainnet", "local", "Local"];
+                for line in 0..2 {
+                    let profiles: Vec<String> = (0..1 + pr.below(3)).map(|_| pr.pick(&pool).to_string()).collect();
+                    let env_files: Vec<(String, String)> = (0..1 + pr.below(2))
+                        .map(|j| (pr.pick(&pool).to_string(), format!("SENDER=addr_test1vqx{j}\nRECEIVER=addr_test1vqy{j}\nFEECAP={j}\nA=addr_test1a{j}\n")))
+                        .collect();
+                    let mut seen: std::collections::BTreeSet<String> = Default::default();
+                    for j in 0..6 {
+                        match emit_tii_with(src, &format!("{k}-p{line}-{j}"), &profiles, &env_files) {
+                            Ok(t) => {
+                                seen.insert(t);
+                            }
+                            Err(e) => tii_err = json!(e),
+                        }
+                    }
+                    tii_prof_runs += 6;
+                    tii_prof_distinct = tii_prof_distinct.max(seen.len());
+                }
+            }
             let canonical = distinct.iter().next().cloned().unwrap_or_default();
             json!({"probe": "determinism", "origin": name, "txs": first.iter().map(|(n, t)| json!([n, tx_json(t)])).collect::<Vec<_>>(),
                    "obs": {"in_process_runs": reps, "in_process_distinct": distinct.len(), "encoding": canonical,
                            "cross_process_runs": procs, "cross_process_distinct": cross.len(),
                            "cross_matches_in_process": cross.iter().all(|c| *c == distinct.iter().next().cloned().unwrap_or_default()),
-                           "tii_runs": tii.len().max(if tii_err.is_null() { 0 } else { 1 }), "tii_distinct": tii.len(), "tii_error": tii_err}})
+                           "tii_runs": tii.len().max(if tii_err.is_null() { 0 } else { 1 }), "tii_distinct": tii.len(), "tii_error": tii_err,
+                           "tii_profile_runs": tii_prof_runs, "tii_profile_distinct": tii_prof_distinct}})
         });
     }
 }
@@ -634,6 +699,7 @@ pub fn interface_program(r: &mut Rng, collide: bool) -> IfaceProgram {
         env = vec![envv.clone(), envb.clone()];
     }
     src.push_str(&format!("party {sender};\nparty {receiver};\n\n"));
+    src.push_str("type Reg {\n    entries: Map<Int, Int>,\n    items: List<Int>,\n    n: Int,\n}\n\n");
     let ntx = 1 + r.below(3) as usize;
     let mut txs = vec![];
     // transaction names that differ only in case are different transactions
@@ -655,6 +721,28 @@ pub fn interface_program(r: &mut Rng, collide: bool) -> IfaceProgram {
         if r.chance(1, 2) {
             params.push(unused.clone());
         }
+        // one parameter that is used exactly once, at a position that rotates over every place of a
+        // transaction body an expression can stand in (whatever walks the IR for its parameters has to reach it)
+        let at = cased(r, &format!("at{k}"));
+        params.push(at.clone());
+        let pos = r.below(14);
+        let reg = |entries: &str, items: &str, n: &str| format!("        datum: Reg {{ entries: {{{entries}}}, items: [{items}], n: {n}, }},\n");
+        let (datum, blocks): (String, String) = match pos {
+            0 => (reg(&format!("{at}: 1,"), "1,", "1"), String::new()),
+            1 => (reg(&format!("1: {at},"), "1,", "1"), String::new()),
+            2 => (reg("1: 1,", &format!("{at},"), "1"), String::new()),
+            3 => (reg("1: 1,", "1,", &at), String::new()),
+            4 => (String::new(), format!("    metadata {{\n        1: {at},\n    }}\n")),
+            5 => (String::new(), format!("    metadata {{\n        {at}: 1,\n    }}\n")),
+            6 => (String::new(), format!("    validity {{\n        since_slot: {at},\n    }}\n")),
+            7 => (String::new(), format!("    validity {{\n        until_slot: {at},\n    }}\n")),
+            8 => (String::new(), format!("    mint {{\n        amount: AnyAsset(0xabcdef12, \"AT\", {at}),\n        redeemer: (),\n    }}\n")),
+            9 => (String::new(), format!("    mint {{\n        amount: AnyAsset(0xabcdef12, \"AT\", 1),\n        redeemer: {at},\n    }}\n")),
+            10 => (String::new(), format!("    cardano::withdrawal {{\n        from: {sender},\n        amount: {at},\n        redeemer: (),\n    }}\n")),
+            11 => (String::new(), format!("    cardano::withdrawal {{\n        from: {sender},\n        amount: 0,\n        redeemer: {at},\n    }}\n")),
+            12 => (String::new(), format!("    output {{\n        to: {receiver},\n        amount: Ada({at}),\n    }}\n")),
+            _ => (reg(&format!("1: 1, {at}: 2,"), "1,", "1"), String::new()),
+        };
         if collide && k == 0 {
             // a second parameter equal to the first up to case
             let other = if qty == qty.to_lowercase() { qty.to_uppercase() } else { qty.to_lowercase() };
@@ -671,9 +759,9 @@ pub fn interface_program(r: &mut Rng, collide: bool) -> IfaceProgram {
             String::new()
         };
         src.push_str(&format!(
-            "tx {name}({plist}) {{\n    input source {{\n        from: {sender},\n        min_amount: {amount} + fees,\n    }}\n{mint}    output {{\n        to: {receiver},\n        amount: {amount},\n    }}\n    output {{\n        to: {sender},\n        amount: source - {amount} - fees,\n    }}\n}}\n\n"
+            "tx {name}({plist}) {{\n    input source {{\n        from: {sender},\n        min_amount: {amount} + fees,\n    }}\n{mint}{blocks}    output {{\n        to: {receiver},\n        amount: {amount},\n    }}\n    output {{\n        to: {sender},\n        amount: source - {amount} - fees,\n{datum}    }}\n}}\n\n"
         ));
-        let mut used = vec![qty, extra, own, sender.clone(), receiver.clone()];
+        let mut used = vec![qty, extra, own, at, sender.clone(), receiver.clone()];
         if reads_env {
             used.push(envv.clone());
             used.push(envb.clone());
